@@ -45,15 +45,35 @@ package main
 // continues in another piece: there CreateRange yields (A, len A), findFloorNodePreferToLeft finds
 // the successor piece and steps back over its insPrev link), preferably right after a rebuild.
 //
+// GARBAGE COLLECTION (C03, harness arg `gc=1`; off otherwise, so the C01/C07 runs are unchanged).
+// The simulated server keeps, per replica, the vector the replica reported with its last request
+// (its document vector at request time, as a real client sends it) and answers every request with
+// time.MinVersionVector over those rows (computed at request time, this request's vector included),
+// as server/packs does; ApplyChangePack then runs Document.GarbageCollect(min vector) after the
+// changes. The harness emits `GC <rep> <vv>` after the OP lines of that response and the model
+// purges clone and root (Model/TextGc.lean: nodes with insPrev relinking, attribute tombstones by the
+// registration table). Every trace is executed in TWO worlds: the GC world (emitting) and a silent
+// GC-off twin fed the same API lines; the property's own oracle: after every API line every replica's
+// Marshal() is the same in both worlds and no sync fails. MALFORMED share (one trace in five): `GX
+// <rep> <vv>` calls Document.GarbageCollect directly with a vector that is TOO LARGE (pointwise
+// maximum of all replicas' vectors); such a trace is `tainted`: the GC-on/GC-off and convergence
+// oracles are off (the property presupposes the min vector), updates have one call each and remote
+// changes are applied one change per pack, so that a failing operation is a single `OP … clone` line
+// whose `err` the model has to predict; the trace ends there.
+//
 // Replay: the API-level lines (R, U, S, Z, F, SN) carry every random choice, so a trace file is
 // replayed by executing exactly those lines; the observation-feeding lines (OP, RC, SNAP, M, MC, D,
 // DC, L, P) of the file are ignored and re-emitted by the execution. Trace ids are text-<seed>-<i>:
 // the same trace is also regenerated by running the generator with -seed <seed> -n <i+1>.
 
 import (
+	"bufio"
 	"fmt"
+	"io"
+	"math/big"
 	"math/rand"
 	"net/url"
+	"os"
 	"sort"
 	"strconv"
 	"strings"
@@ -180,6 +200,13 @@ type textReplica struct {
 	// current clone; rebuilds counts them
 	copiedLinks map[string]bool
 	rebuilds    int
+	// gc=1: the vector this replica reported with its last request (the server's row)
+	reported time.VersionVector
+	// a response has been applied since the last local update (gc=1: the undo stack may then hold
+	// positions inside purged nodes)
+	syncedSinceUpdate bool
+	// the operations of the last Undo (compared between the GC world and the GC-off twin)
+	lastUndo string
 }
 
 type textWorld struct {
@@ -189,6 +216,223 @@ type textWorld struct {
 	log  []*change.Change
 	// a panic inside the implementation was reported for this trace; its remaining lines are skipped
 	dead bool
+	// gc=1: responses carry the min version vector; tainted: a too-large vector has been used (GX)
+	gc      bool
+	tainted bool
+	// gc=1: the silent GC-off twin world and whether a difference has been reported already
+	twinOff  *textWorld
+	diffSeen bool
+	// gc=1: the re-parenting step of this trace has been identified
+	reparented bool
+	// gc=1: an Undo produced different reverse operations in the two worlds: the rest of the trace is
+	// outside C03 (undo/redo is C14/C15)
+	undoDiffers bool
+	// the trace runs in gc mode (true in BOTH worlds, so that rules that must not depend on the world -
+	// which API lines are skipped - are the same in both)
+	gcTrace bool
+}
+
+// parseShownVV is the inverse of ShowVV.
+func parseShownVV(s string) time.VersionVector {
+	vv := time.NewVersionVector()
+	s = strings.Trim(s, "{}")
+	if s == "" {
+		return vv
+	}
+	for _, kv := range strings.Split(s, ",") {
+		p := strings.SplitN(kv, ":", 2)
+		if len(p) != 2 {
+			continue
+		}
+		l, _ := strconv.ParseInt(p[1], 10, 64)
+		vv.Set(NatActor(p[0]), l)
+	}
+	return vv
+}
+
+// serverMinVV is what the server answers: the minimum over the rows of all replicas that have one.
+func (w *textWorld) serverMinVV() time.VersionVector {
+	var rows []time.VersionVector
+	for _, r := range w.ord {
+		if r.reported != nil {
+			rows = append(rows, r.reported)
+		}
+	}
+	return time.MinVersionVector(rows...)
+}
+
+// silentCtx is the context of the GC-off twin world: nothing it prints reaches the streams.
+func silentCtx(c *Ctx) *Ctx {
+	sc := &Ctx{Rng: c.Rng, Seed: c.Seed, N: c.N, Tier: c.Tier, Out: c.Out,
+		cmds: bufio.NewWriter(io.Discard), impl: bufio.NewWriter(io.Discard), orc: bufio.NewWriter(io.Discard),
+		seen: map[string]bool{}}
+	sc.stats.Dist = map[string]int{}
+	sc.traceID = c.traceID
+	return sc
+}
+
+func textGCArg() bool {
+	for _, a := range os.Args {
+		if a == "gc=1" {
+			return true
+		}
+	}
+	return false
+}
+
+// charBag lists every live character of the text with its attributes, sorted: two texts with the same
+// bag differ in ORDER only (the shape of the re-parenting divergence).
+func charBag(d *document.Document) string {
+	t := rootText(d)
+	if t == nil {
+		return ""
+	}
+	var parts []string
+	for _, n := range t.Nodes() {
+		if n.RemovedAt() != nil {
+			continue
+		}
+		as := n.Value().Attrs().Marshal()
+		for _, r := range n.Value().Value() {
+			parts = append(parts, string(r)+as)
+		}
+	}
+	sort.Strings(parts)
+	return strings.Join(parts, "\x00")
+}
+
+func diffShape(a, b *document.Document) string {
+	if charBag(a) == charBag(b) {
+		return "order-only"
+	}
+	return "content"
+}
+
+// textReparentTag is the prefix of the C03 oracle lines of a trace in which the re-parenting step has
+// been IDENTIFIED (reparentEvidence): known finding F-C03-text-reparent.
+const textReparentTag = "KNOWN[c03-text-reparent] "
+
+// c03Prefix: consequences (GC-on != GC-off later in the trace, divergence at quiescence) carry the tag
+// only after such a step was identified in this trace; anything else is a plain violation.
+func (w *textWorld) c03Prefix() string {
+	if w.reparented {
+		return textReparentTag
+	}
+	return ""
+}
+
+type gcNodeRow struct {
+	id      string
+	removed bool
+	first   bool // offset 0: the first piece of an insertion
+}
+
+func gcNodeRows(d *document.Document) []gcNodeRow {
+	t := rootText(d)
+	if t == nil {
+		return nil
+	}
+	var rows []gcNodeRow
+	for _, n := range t.Nodes() {
+		rows = append(rows, gcNodeRow{id: encNodeID(n.ID()), removed: n.RemovedAt() != nil, first: n.ID().Offset() == 0})
+	}
+	return rows
+}
+
+// reparentEvidence looks, on one replica and its GC-off twin, for the signature of the re-parenting
+// divergence: (1) an insertion (same ticket) that both worlds hold, (2) whose left neighbour - among
+// the nodes both worlds hold - differs, and (3) in the GC-off twin at least one tombstone that the GC
+// world has purged lies between the two landing places (the skip walk crossed a purge site).
+func reparentEvidence(on, off *document.Document) string {
+	ron, roff := gcNodeRows(on), gcNodeRows(off)
+	inOn, posOff := map[string]bool{}, map[string]int{}
+	for _, r := range ron {
+		inOn[r.id] = true
+	}
+	for i, r := range roff {
+		posOff[r.id] = i
+	}
+	prevCommon := func(rows []gcNodeRow, k int, other func(string) bool) string {
+		for j := k - 1; j >= 0; j-- {
+			if other(rows[j].id) {
+				return rows[j].id
+			}
+		}
+		return "head"
+	}
+	inOff := func(id string) bool { _, ok := posOff[id]; return ok }
+	for k, x := range ron {
+		px, ok := posOff[x.id]
+		if !x.first || !ok {
+			continue
+		}
+		a := prevCommon(ron, k, inOff)                                  // left neighbour with GC
+		b := prevCommon(roff, px, func(id string) bool { return inOn[id] }) // left neighbour without GC
+		if a == b {
+			continue
+		}
+		pa := -1
+		if a != "head" {
+			pa = posOff[a]
+		}
+		if pa < px {
+			// (the mirror image: x is a node the walk of ANOTHER insertion went over)
+			continue
+		}
+		// with GC the walk went on to behind a, which in the twin lies to the right of where x stopped
+		purged := 0
+		for j := px + 1; j < pa; j++ {
+			if roff[j].removed && !inOn[roff[j].id] {
+				purged++
+			}
+		}
+		if purged > 0 {
+			return fmt.Sprintf("%d purged tombstone(s) change the skip walk: insertion %s lands behind %s with GC, behind %s without",
+				purged, x.id, a, b)
+		}
+	}
+	return ""
+}
+
+// compareWorlds is the C03 oracle: same history, GC on vs GC off, same content on every replica.
+func (w *textWorld) compareWorlds(after string) {
+	if w.twinOff == nil || w.tainted || w.diffSeen || w.dead || w.undoDiffers {
+		return
+	}
+	if f := strings.Fields(after); len(f) == 2 && f[0] == "Z" {
+		if a, b := w.reps[f[1]], w.twinOff.reps[f[1]]; a != nil && b != nil && a.lastUndo != b.lastUndo {
+			// not a GC defect of an edit: the reverse of a Style takes "the previous attributes" from the
+			// first visited node, which may be a tombstone - that GC has purged in one world
+			w.undoDiffers = true
+			w.c.Count("c14:undo-reverse-differs-with-gc")
+			w.c.Oracle("C14/C15 (outside C03) Undo of a Style yields different reverse operations with and without GC on %s: with GC %s without GC %s", f[1], a.lastUndo, b.lastUndo)
+			return
+		}
+	}
+	if w.twinOff.dead {
+		w.c.Oracle("C03 the GC-off twin world died after %q", after)
+		w.diffSeen = true
+		return
+	}
+	for _, rep := range w.ord {
+		o := w.twinOff.reps[rep.name]
+		if o == nil {
+			continue
+		}
+		if on, off := rep.doc.Marshal(), o.doc.Marshal(); on != off {
+			shape := diffShape(rep.doc, o.doc)
+			if ev := reparentEvidence(rep.doc, o.doc); ev != "" {
+				w.reparented = true
+				w.c.Count("c03:reparenting-step-identified")
+				w.c.Oracle("%sC03 GC-on != GC-off on %s after %q: %s (shape=%s): on=%s off=%s", textReparentTag, rep.name, after, ev, shape, on, off)
+			} else {
+				w.c.Oracle("C03 GC-on != GC-off (shape=%s) on %s after %q: on=%s off=%s", shape, rep.name, after, on, off)
+			}
+			w.diffSeen = true
+			return
+		}
+	}
+	w.c.Count("c03:worlds-compared")
 }
 
 func rootText(d *document.Document) *crdt.Text {
@@ -216,7 +460,11 @@ func (w *textWorld) observe(rep *textReplica) {
 	c.Cmd("MC %s", rep.name)
 	c.Obs("%s", clone)
 	if clone != root {
-		c.Oracle("clone != root on %s: clone=%s root=%s", rep.name, clone, root)
+		if w.tainted {
+			c.Count("gx:clone-differs-from-root")
+		} else {
+			c.Oracle("clone != root on %s: clone=%s root=%s", rep.name, clone, root)
+		}
 	}
 	rt, ct := rootText(rep.doc), cloneText(rep.doc)
 	dr, dc := dumpText(rt), dumpText(ct)
@@ -225,7 +473,13 @@ func (w *textWorld) observe(rep *textReplica) {
 	c.Cmd("DC %s", rep.name)
 	c.Obs("%s", dc)
 	if dr != dc {
-		c.Oracle("clone and root differ structurally on %s: clone=%s root=%s", rep.name, dc, dr)
+		if w.gc {
+			// with GC on, which attribute tombstones are purged depends on the registration table
+			// (known finding C09-n2: keyed without the owner, toggling); the model reproduces both sides
+			c.Count("gc:clone-root-structure-differs")
+		} else {
+			c.Oracle("clone and root differ structurally on %s: clone=%s root=%s", rep.name, dc, dr)
+		}
 	}
 	if ct != nil {
 		c.Cmd("L %s", rep.name)
@@ -379,12 +633,18 @@ func (w *textWorld) feedTwin(rep *textReplica) {
 
 // checkTwin: a snapshot-fed replica equals the replica that was fed the same history as changes.
 func (w *textWorld) checkTwin(rep *textReplica, rootMarshal string, rootDump string, rootMeta string) {
-	if rep.twin == nil {
+	if rep.twin == nil || w.tainted {
 		return
 	}
 	w.c.Count("twin:compared")
-	if m := rep.twin.Marshal(); m != rootMarshal {
+	if m := rep.twin.Marshal(); m != rootMarshal && w.gc {
+		// the change-fed twin is never garbage-collected: a GC-on vs GC-off difference, which the
+		// comparison of the two WORLDS reports (the snapshot-fed replica exists in both)
+		w.c.Count("gc:snapshot-fed-differs-from-change-fed-twin")
+	} else if m != rootMarshal {
 		w.c.Oracle("snapshot-fed %s differs from its change-fed twin: snapshot-fed=%s twin=%s", rep.name, rootMarshal, m)
+	} else if w.gc {
+		// the change-fed twin is never garbage-collected: only the content is comparable
 	} else if d := dumpText(rootText(rep.twin)); d != rootDump {
 		w.c.Oracle("snapshot-fed %s differs structurally from its change-fed twin: snapshot-fed=%s twin=%s", rep.name, rootDump, d)
 	} else if em := elemMeta(rep.twin.RootObject()); em != rootMeta {
@@ -606,6 +866,7 @@ func (w *textWorld) update(rep *textReplica, calls []textCall) {
 		w.emitChange(rep, cn, true, true)
 	}
 	w.record(rep, chs[before:])
+	rep.syncedSinceUpdate = false
 	w.observe(rep)
 }
 
@@ -667,6 +928,9 @@ func (w *textWorld) snapshotFeed(src *textReplica, name string, actor time.Actor
 	// after a sync the root of src holds exactly the changes log[0:cpS) (nothing unpushed), which is
 	// what a server snapshot at that position holds
 	w.sync(src)
+	if w.dead { // (tainted trace: an operation failed during that sync)
+		return nil
+	}
 	if src.doc.HasLocalChanges() {
 		return fmt.Errorf("SN: %s still has local changes", src.name)
 	}
@@ -706,6 +970,9 @@ func (w *textWorld) snapshotFeed(src *textReplica, name string, actor time.Actor
 		return nil
 	}
 	dst := &textReplica{name: name, doc: d, actor: actor, cpS: src.cpS, hist: append([]*change.Change(nil), src.hist...)}
+	if w.gc {
+		dst.reported = d.VersionVector().DeepCopy()
+	}
 	w.reps[name] = dst
 	w.ord = append(w.ord, dst)
 	// the change-fed twin: the same history, as changes
@@ -731,6 +998,14 @@ func (w *textWorld) snapshotFeed(src *textReplica, name string, actor time.Actor
 // then a Style set/remove operation; Edit reverses carry restore spans, which are out of scope).
 func (w *textWorld) undoStyle(rep *textReplica) {
 	c := w.c
+	if w.gcTrace && rep.syncedSinceUpdate {
+		// Undo after a garbage collection is C15 territory (the reverse Style keeps positions inside
+		// nodes that may have been purged: text instance of F-C15-undo-purged-target, `offset should be
+		// less than or equal to length` / `the node of the given id should be found`, clone executed
+		// before root without rollback); the C03 runs undo only what no response has touched
+		c.Count("api:undo-skipped-after-sync(gc)")
+		return
+	}
 	top := rep.doc.UndoStackTopForTest()
 	if len(top) == 0 {
 		c.Count("api:undo-skipped")
@@ -752,6 +1027,12 @@ func (w *textWorld) undoStyle(rep *textReplica) {
 	}
 	c.Count("api:undo-style")
 	chs := rep.doc.CreateChangePack().Changes
+	rep.lastUndo = ""
+	for _, cn := range chs[before:] {
+		for _, op := range cn.Operations() {
+			rep.lastUndo += encTextOp(op, "-") + " ; "
+		}
+	}
 	for _, cn := range chs[before:] {
 		for _, op := range cn.Operations() {
 			if st, ok := op.(*operations.Style); ok && len(st.AttributesToRemove()) > 0 {
@@ -800,7 +1081,12 @@ func (w *textWorld) syncSend(rep *textReplica) {
 		return
 	}
 	head := int64(len(w.log))
-	rep.inflight = change.NewPack(rep.doc.Key(), change.NewCheckpoint(head, rep.pushedC), wire, nil, nil)
+	var minVV time.VersionVector
+	if w.gc {
+		rep.reported = rep.doc.VersionVector().DeepCopy()
+		minVV = w.serverMinVV()
+	}
+	rep.inflight = change.NewPack(rep.doc.Key(), change.NewCheckpoint(head, rep.pushedC), wire, minVV, nil)
 }
 
 // syncApply is the second half: the response computed by syncSend reaches the document.
@@ -811,6 +1097,11 @@ func (w *textWorld) syncApply(rep *textReplica) {
 		return
 	}
 	rep.inflight = nil
+	rep.syncedSinceUpdate = true
+	if w.tainted {
+		w.syncApplyOneByOne(rep, resp)
+		return
+	}
 	err := rep.doc.ApplyChangePack(resp)
 	if err != nil {
 		c.Oracle("ApplyChangePack failed on %s: %v", rep.name, err)
@@ -821,10 +1112,47 @@ func (w *textWorld) syncApply(rep *textReplica) {
 	if err == nil {
 		w.record(rep, resp.Changes)
 	}
+	if err == nil && w.gc && resp.VersionVector != nil {
+		// ApplyChangePack has run Document.GarbageCollect(resp.VersionVector) after the changes
+		c.Cmd("GC %s %s", rep.name, ShowVV(resp.VersionVector))
+		c.Obs("ok")
+		c.Count("gc:min-vector")
+	}
 	rep.cpS = resp.Checkpoint.ServerSeq
 	if len(resp.Changes) > 0 {
 		c.Count("sync:with-remote-changes")
 	}
+	w.observe(rep)
+}
+
+// syncApplyOneByOne (tainted traces): one change per pack, so that a failure is one operation.
+func (w *textWorld) syncApplyOneByOne(rep *textReplica, resp *change.Pack) {
+	c := w.c
+	for _, cn := range resp.Changes {
+		pk := change.NewPack(rep.doc.Key(), change.NewCheckpoint(rep.cpS, 0), []*change.Change{cn}, nil, nil)
+		if err := rep.doc.ApplyChangePack(pk); err != nil {
+			c.Count("gx:operation-failed-after-too-large-vector")
+			ops := cn.Operations()
+			if len(ops) == 1 {
+				// the clone executes first and fails; the root is not reached
+				c.Cmd("OP %s clone %s", rep.name, encTextOp(ops[0], ShowVV(cn.ID().VersionVector())))
+				c.Obs("err")
+			}
+			w.dead = true
+			return
+		}
+		w.emitChange(rep, cn, false, true)
+		w.record(rep, []*change.Change{cn})
+	}
+	last := change.NewPack(rep.doc.Key(), resp.Checkpoint, nil, resp.VersionVector, nil)
+	if err := rep.doc.ApplyChangePack(last); err != nil {
+		c.Oracle("ApplyChangePack (checkpoint only) failed on %s: %v", rep.name, err)
+	}
+	if w.gc && resp.VersionVector != nil {
+		c.Cmd("GC %s %s", rep.name, ShowVV(resp.VersionVector))
+		c.Obs("ok")
+	}
+	rep.cpS = resp.Checkpoint.ServerSeq
 	w.observe(rep)
 }
 
@@ -837,14 +1165,19 @@ func (w *textWorld) sync(rep *textReplica) {
 }
 
 func (w *textWorld) converged() {
-	if len(w.ord) == 0 {
+	if len(w.ord) == 0 || w.tainted || w.undoDiffers {
 		return
 	}
 	first := w.ord[0].doc.Marshal()
 	fd := dumpText(rootText(w.ord[0].doc))
 	for _, rep := range w.ord[1:] {
 		if m := rep.doc.Marshal(); m != first {
-			w.c.Oracle("replicas diverge after quiescence: %s=%s vs %s=%s", w.ord[0].name, first, rep.name, m)
+			if w.gc {
+				shape := diffShape(w.ord[0].doc, rep.doc)
+				w.c.Oracle("%sC03 replicas diverge after quiescence with GC on (shape=%s): %s=%s vs %s=%s", w.c03Prefix(), shape, w.ord[0].name, first, rep.name, m)
+			} else {
+				w.c.Oracle("replicas diverge after quiescence: %s=%s vs %s=%s", w.ord[0].name, first, rep.name, m)
+			}
 		} else if d := dumpText(rootText(rep.doc)); d != fd {
 			// not part of C01 (which is about Marshal), but worth knowing: internal structure differs
 			w.c.Count("quiescent:structure-differs")
@@ -959,10 +1292,46 @@ func (w *textWorld) exec(line string) (err error) {
 			w.c.Nontrivial()
 		}
 		w.syncApply(r)
+	case "GX": // malformed: Document.GarbageCollect with a too-large vector: GX <rep> <vv>
+		r, err := rep()
+		if err != nil {
+			return err
+		}
+		if len(f) != 3 {
+			return fmt.Errorf("bad line %q", line)
+		}
+		if !w.gc { // the GC-off twin ignores it
+			return nil
+		}
+		w.tainted = true
+		vv := parseShownVV(f[2])
+		r.doc.GarbageCollect(vv)
+		w.c.Cmd("GC %s %s", r.name, ShowVV(vv))
+		w.c.Obs("ok")
+		w.c.Count("gx:too-large-vector")
+		w.observe(r)
 	case "Q":
 		w.converged()
 	}
 	return nil
+}
+
+// maxVV is the pointwise maximum of the vectors of all replicas (a vector that is too large for GC).
+func (w *textWorld) maxVV() time.VersionVector {
+	m := map[string]int64{}
+	for _, r := range w.ord {
+		for a, l := range r.doc.VersionVector() {
+			k := new(big.Int).SetBytes(a[:]).String()
+			if l > m[k] {
+				m[k] = l
+			}
+		}
+	}
+	vv := time.NewVersionVector()
+	for k, l := range m {
+		vv.Set(NatActor(k), l)
+	}
+	return vv
 }
 
 var textPool = []string{"a", "b", "c", "d", "e", "x", "y", "z", "A", "Z", "0", "1", "7", " ", " ",
@@ -1109,20 +1478,48 @@ func runText(c *Ctx, inflight bool) error {
 	if inflight {
 		c.stats.Rule += "; engine textif additionally splits syncs into request/response halves with local updates in between"
 	}
+	gc := textGCArg()
+	if gc {
+		c.stats.Rule += "; gc=1 (C03): every response carries time.MinVersionVector over the vectors the replicas reported with their " +
+			"last requests and ApplyChangePack garbage-collects with it (GC <rep> <vv>: the model purges clone and root); a silent " +
+			"GC-off twin world executes the same API lines and every replica's Marshal() is compared after every line; one trace in " +
+			"five is malformed: Document.GarbageCollect is called with a too-large vector (GX), the oracles are off and the model has " +
+			"to predict the failing operation"
+	}
+	newWorld := func() *textWorld {
+		w := &textWorld{c: c, reps: map[string]*textReplica{}, gc: gc, gcTrace: gc}
+		if gc {
+			w.twinOff = &textWorld{c: silentCtx(c), reps: map[string]*textReplica{}, gcTrace: true}
+		}
+		return w
+	}
+	// run executes one API line in the GC world and in the GC-off twin and compares them
+	run := func(w *textWorld, l string) error {
+		if err := w.exec(l); err != nil {
+			return err
+		}
+		if w.twinOff != nil {
+			if err := w.twinOff.exec(l); err != nil {
+				return err
+			}
+			w.compareWorlds(l)
+		}
+		return nil
+	}
 	if c.Replay != nil {
-		w := &textWorld{c: c, reps: map[string]*textReplica{}}
+		w := newWorld()
 		for _, l := range c.Replay {
 			f := strings.Fields(l)
 			switch f[0] {
 			case "T":
 				c.Trace(strings.TrimSpace(strings.TrimPrefix(l, "T")))
-				w = &textWorld{c: c, reps: map[string]*textReplica{}}
-			case "R", "U", "S", "Z", "Q", "SS", "SA", "F", "SN":
+				w = newWorld()
+			case "R", "U", "S", "Z", "Q", "SS", "SA", "F", "SN", "GX":
 				if c.traceID == "" {
 					c.Trace("replay")
 				}
 				c.Cmd("%s", l)
-				if err := w.exec(l); err != nil {
+				if err := run(w, l); err != nil {
 					return err
 				}
 			default:
@@ -1134,12 +1531,13 @@ func runText(c *Ctx, inflight bool) error {
 	r := c.Rng
 	for i := 0; i < c.N; i++ {
 		c.Trace(fmt.Sprintf("%s-%d-%d", c.stats.Engine, c.Seed, i))
-		w := &textWorld{c: c, reps: map[string]*textReplica{}}
+		w := newWorld()
 		do := func(format string, a ...any) error {
 			l := fmt.Sprintf(format, a...)
 			c.Cmd("%s", l)
-			return w.exec(l)
+			return run(w, l)
 		}
+		malformed := gc && r.Intn(5) == 0 // this trace will use a too-large GC vector
 		n := 2 + r.Intn(3)
 		var names []string
 		syncP := map[string]int{}
@@ -1215,6 +1613,10 @@ func runText(c *Ctx, inflight bool) error {
 			}
 			x := r.Intn(100)
 			switch {
+			case malformed && s >= 3 && r.Intn(8) == 0:
+				if err := do("GX %s %s", name, ShowVV(w.maxVV())); err != nil {
+					return err
+				}
 			case inflight && rep.inflight != nil && x < 40:
 				if err := do("SA %s", name); err != nil {
 					return err
@@ -1291,7 +1693,7 @@ func runText(c *Ctx, inflight bool) error {
 				c.Count("trace:text-replaced")
 			default:
 				nc := 1
-				if r.Intn(5) == 0 {
+				if r.Intn(5) == 0 && !malformed {
 					nc = 2 + r.Intn(2)
 				}
 				pSeam := 20
